@@ -4,6 +4,9 @@ import SimplicityModel.PrunePipeline
 /-! C08: `prune <plan> [W:…] [T:…] [C:…] [K:…] [J:…] [E:<env seed>]` →
 `ok <tok_0> … <tok_{n-1}> cmr=<root> principal=yes|no antidos=ok|rejected|n/a` | `fail <kind>`.
 
+This file only parses the line, calls `Prog.prunePipeline` / `Prog.Pruned.antiDos`
+(`PrunePipeline.lean`, the functions `Props.C08.pipeline_antiDos` is about) and prints.
+
 The model: types of the plan (`inferM`, all nodes, root `1 → 1`), commitment and identity roots
 (`cmrs`, `ihrs`); tracker = the record of `evalT` on the elaborated term, labelled with the
 identity root (IHR) of the plan node each term node comes from; pruned plan = `prunePlan` (the
